@@ -148,6 +148,11 @@ func GenGraphCase(g G, kind string, maxN, maxW int) *GraphCase {
 	default:
 		gc.N = g.Int((maxN+1)/2, maxN)
 	}
+	big := g.Pct(3)
+	if big {
+		// now and then a graph several times larger than the usual bound
+		gc.N = g.Int(maxN+1, 5*maxN)
+	}
 	gc.Hash = g.Bool()
 	// weight palette: small palettes force ties
 	var wp []int
@@ -172,7 +177,7 @@ func GenGraphCase(g G, kind string, maxN, maxW int) *GraphCase {
 	}
 	n := gc.N
 	maxE := n * 3
-	if maxE > 80 {
+	if maxE > 80 && !big {
 		maxE = 80
 	}
 	ne := g.Int(0, maxE)
